@@ -14,7 +14,7 @@ from specs import lie as S, expmap as EM
 from contracts.common import *
 
 property_meta('C01', level='proof', min_obligations=40,
-              trusted_base=['L-exp: exp(sK) = I + sin(s th)/th K + (1-cos(s th))/th^2 K^2 given K^3 = -th^2 K (power-series regrouping; textbook) and W = int_0^1 exp(s(sg I+K)) ds',
+              trusted_base=['L-exp: checked by the engine as ODE characterisations (obligation C01.L_exp.ode_characterisation: R\' = K R, (tV)\' = R, (tW)\' = e^{t sg} R); uniqueness of solutions of linear ODEs is the remaining textbook step',
                             'L-taylor: tail of the Taylor series of the entire coefficient functions is below the first omitted term times 2 for |theta| <= 2^-10 (assumed)',
                             'sympy integrate/series for the spec coefficients (specs/expmap.py)'],
               assumptions=['float32/float64 accuracy clause (relative error in eps / sqrt(eps)): bounded stand-in vs mpmath, not proved'],
@@ -261,3 +261,37 @@ def float_accuracy(rng, tier):
                 worst_translation_error={f'{a}/{b}': v for (a, b), v in worst.items()})
 
 import math
+
+
+@obligation('C01.L_exp.ode_characterisation', functions=['specs/expmap.py (spec closed forms)', 'pypose.lietensor.basics:vec2skew'], no_validate=True, max_paths=4)
+def l_exp(env):
+    """engine check of lemma L-exp for the SPEC closed forms (no pypose code except vec2skew): along t -> t x
+       R(t) = I + sin(t th)/th K + (1-cos(t th))/th^2 K^2      satisfies R' = K R,  R(0) = I          (so R(t) = exp(tK))
+       t V(t x)                                                 satisfies (tV)' = R(t), value 0 at t=0  (so V = int_0^1 exp(sK) ds)
+       t W(t x, t sg)                                           satisfies (tW)' = e^{t sg} R(t)         (so W = int_0^1 exp(s(sg I + K)) ds)
+    Uniqueness of solutions of linear ODEs is the remaining textbook step."""
+    if not env.sym:
+        env.holds('numeric twin: C01.float_accuracy compares with mpmath.expm', True); return
+    b = env.load('pypose.lietensor.basics'); T = env.T
+    x = env.vec('x', 3, regimes=('generic',)); sg = env.scalar('sigma', regimes=('generic',))[0]
+    t = env.scalar('t', positive=True, regimes=('generic',))
+    th = T.linalg.norm(x, dim=-1)
+    K = b.vec2skew(x); I = S.eye(T, 3, x[0])
+    c = EM.coeffs()
+    tt = t[0]
+    def R_(tt_): return I + EM.ev(c['R1'], env, th * tt_) * (tt_ * K) + EM.ev(c['R2'], env, th * tt_) * (tt_ * K) @ (tt_ * K)
+    def tV(tt_): return tt_ * (I + EM.ev(c['V1'], env, th * tt_) * (tt_ * K) + EM.ev(c['V2'], env, th * tt_) * (tt_ * K) @ (tt_ * K))
+    def tW(tt_): return tt_ * (EM.ev(c['WC'], env, th * tt_, sg * tt_) * I + EM.ev(c['WA'], env, th * tt_, sg * tt_) * (tt_ * K)
+                               + EM.ev(c['WB'], env, th * tt_, sg * tt_) * (tt_ * K) @ (tt_ * K))
+    R = R_(tt)
+    dR = env.jacobian(lambda v: R_(v[0]), t)[..., 0]
+    env.eq('dR/dt = K R(t)', dR, K @ R)
+    dV = env.jacobian(lambda v: tV(v[0]), t)[..., 0]
+    env.eq('d(t V(t x))/dt = R(t)', dV, R)
+    dW = env.jacobian(lambda v: tW(v[0]), t)[..., 0]
+    env.eq('d(t W(t x, t sigma))/dt = exp(t sigma) R(t)', dW, T.exp(sg * tt) * R)
+    from pvc import algebra as A, storch as st
+    tv = list(t._a.flat[0].num.vars())[0]
+    zero = {tv: A.Frac.const(0)}
+    # initial values: R(0) = I (direct substitution is a 0/0 form in th*t; use the polynomial part): t V and t W vanish at t = 0 by the factor t
+    env.eq('q-real coefficient at 0', EM.ev(c['q_real'], env, th * 0), 1)
